@@ -55,6 +55,23 @@ def oracle(case):
                 return ({"cls": cname, "clause": "override", "method": m, "param": list(expl)[0], "fixed": True},
                         "%s with %r fixed: %s(x, %r) differs from an instance constructed with these values" % (cname, sorted(expl), m, expl))
     d = Cls(**th)
+    # ---- "an instance constructed with those values": however the constructor is given them (as start value or as fixed
+    # value f_<name>, every subset), the object holds them and evaluates like the plainly constructed one
+    import itertools
+    for r in range(1, len(ps) + 1):
+        for F in itertools.combinations(ps, r):
+            try:
+                fi = Cls(**{("f_" + p if p in F else p): v for p, v in th.items()})
+                held = {p: fi.parameters[p] for p in ps}
+                vals = [np.asarray(getattr(fi, m)(arg)) for m, arg in (("cdf", x), ("pdf", x), ("icdf", np.array([0.2, 0.5, 0.8])))]
+            except Exception as e:  # noqa
+                return ({"cls": cname, "clause": "constructed-fixed", "exc": type(e).__name__},
+                        "%s(%s) then evaluation raised %s: %s" % (cname, ", ".join("%s%s=%r" % ("f_" if p in F else "", p, th[p]) for p in ps), type(e).__name__, str(e)[:100]))
+            want = [np.asarray(getattr(d, m)(arg)) for m, arg in (("cdf", x), ("pdf", x), ("icdf", np.array([0.2, 0.5, 0.8])))]
+            if any(held[p] != th[p] for p in ps) or not all(np.array_equal(a, b, equal_nan=True) for a, b in zip(vals, want)):
+                return ({"cls": cname, "clause": "constructed-fixed", "n_fixed": len(F)},
+                        "%s(%s) holds %r and differs in cdf/pdf/icdf from %s(%r)" % (
+                            cname, ", ".join("%s%s=%r" % ("f_" if p in F else "", p, th[p]) for p in ps), held, cname, th))
     # ---- argument kinds
     c_arr = np.asarray(d.cdf(x))
     c_list = np.asarray(d.cdf(list(xs)))
